@@ -560,6 +560,7 @@ def run_shard(spec: Dict[str, Any]) -> Dict[str, Any]:
     elif spec["kind"] == "yaml":
         _yaml_path(col, audit)
         _yaml_from_context_names(col, audit)
+        _yaml_history(col, audit)
     elif spec["kind"] == "fuzz":
         from .fuzz_expr import run_child
 
@@ -595,6 +596,38 @@ def _yaml_path(col: Collector, audit: Audit) -> None:
         if built and info["verdict"] in ("unsafe", "syntax"):
             col.add("accepted_unsafe", {"position": info.get("position", "syntax"), "kind": info.get("kind", "syntax"), "path": "yaml"},
                     case, observed="pipeline built", expected="configuration rejected")
+
+
+def _yaml_history(col: Collector, audit: Audit) -> None:
+    """Configuration path with history: the same expression text is first used by a node that declares all its names,
+    then by a node that declares fewer; the second must be refused exactly as if it had come first."""
+    from semantiva.pipeline import Pipeline
+
+    from ..lib import observe
+
+    observe.ensure_registered()
+
+    def cfg(expr, names):
+        return [{"processor": "FloatValueDataSource",
+                 "derive": {"parameter_sweep": {"parameters": {"value": expr}, "variables": {n: [1.0, 2.0] for n in names}, "collection": "FloatDataCollection", "mode": "by_position"}}}]
+
+    for expr, full, fewer in (("t * k", ["t", "k"], ["t"]), ("t + float(bool(open))", ["t", "open"], ["t"]), ("abs(t) + u * 2.0", ["t", "u"], ["u"]),
+                              ("min(t, s, r)", ["t", "s", "r"], ["t", "s"])):
+        for order in ("subset_only", "superset_first"):
+            built = False
+            with audit(False):
+                try:
+                    if order == "superset_first":
+                        Pipeline(cfg(expr, full))
+                    Pipeline(cfg(expr, fewer))
+                    built = True
+                except BaseException:  # noqa: BLE001
+                    pass
+            case = {"yaml_sweep_expr": expr, "declared": fewer, "history": order}
+            col.count(case, ["yaml_history", "built" if built else "refused"], True, key="yamlhist:" + expr + ":" + order)
+            if built:
+                col.add("accepted_unsafe" if order == "subset_only" else "verdict_depends_on_compile_history",
+                        {"position": "other", "kind": "Name:undeclared", "path": "yaml", "history": order}, case, "pipeline built", "configuration rejected")
 
 
 def _yaml_from_context_names(col: Collector, audit: Audit) -> None:
